@@ -459,7 +459,9 @@ macro_rules! impl_cache_processor {
                         cost,
                         external_cost,
                     } => {
-                        let cost = self.calculate_internal_cost(cost) + external_cost;
+                        let cost = self
+                            .calculate_internal_cost(cost)
+                            .saturating_add(external_cost);
                         #[cfg(transparencies_stretto_verif)]
                         crate::verif::sched::point("item:update:before_policy_update");
                         self.policy.update(&key, cost);
@@ -493,7 +495,7 @@ macro_rules! impl_cache_processor {
             fn calculate_internal_cost(&self, cost: i64) -> i64 {
                 if !self.ignore_internal_cost {
                     // Add the cost of internally storing the object.
-                    cost + (self.item_size as i64)
+                    cost.saturating_add(self.item_size as i64)
                 } else {
                     cost
                 }
